@@ -376,6 +376,54 @@ pub fn explore(root: &Root, lname: &str, level: P, rep: &mut Report) {
     subject::force(None);
 }
 
+/// Large single transfers (the BFS alphabet stops at 2117 bytes): fill and Read::read of sizes around
+/// 4 KiB .. 1 MiB from positions on both sides of a block boundary and of block counter 2^32, each
+/// followed by a small fill that must continue the stream. Same `step` oracle, same replay format.
+fn large_transfers(root: &Root, lname: &str, level: P, thorough: bool, rep: &mut Report) {
+    subject::force(Some(level));
+    let data = vcommon::stream_a(root.len.max(1));
+    let (rd0, node, _) = match make_root(root, &data) {
+        Ok(x) => x,
+        Err(_) => {
+            subject::force(None);
+            return; // reported by explore
+        }
+    };
+    let mut oracle = Oracle { node, blocks: HashMap::new() };
+    let mut sizes = vec![4096usize, 16 * 1024 + 1, 65535, 65536, 65537, 128 * 1024 + 1];
+    if thorough {
+        sizes.extend([32 * 1024 - 1, 64 * 1024 + 64, 256 * 1024, (1 << 20) + 3]);
+    }
+    let starts = [0u64, 1, 63, 64, 64 * (1u64 << 32) - 64 * 700 - 1, 64 * (1u64 << 32) - 64];
+    for &p0 in &starts {
+        for &n in &sizes {
+            for read in [false, true] {
+                let big = if read { XOp::Read(n) } else { XOp::Fill(n) };
+                let ops = [XOp::SetPosition(p0), big, XOp::Fill(100)];
+                let mut rd = rd0.clone();
+                let mut p = 0u64;
+                rep.inc("large_transfer_histories");
+                rep.inc("distinct_nontrivial");
+                for (i, op) in ops.iter().enumerate() {
+                    rep.inc("transitions");
+                    rep.inc("evaluations");
+                    match step(&mut rd, p, *op, &mut oracle, rep) {
+                        Ok(np) => p = np,
+                        Err((key, exp, o)) => {
+                            rep.violation(&key, format!("{} root len {} at {}: {:?}: expected {}, observed {}", root.mode.name(), root.len, lname, &ops[..=i], exp, o),
+                                replay_json(root, lname, &ops[..=i], &key, &exp, &o));
+                            break;
+                        }
+                    }
+                }
+                // the oracle's block cache would otherwise grow to the whole stream read so far
+                oracle.blocks.clear();
+            }
+        }
+    }
+    subject::force(None);
+}
+
 pub fn run(args: &Args, rep: &mut Report) {
     let t = args.thorough();
     let levels = subject::levels();
@@ -402,10 +450,20 @@ pub fn run(args: &Args, rep: &mut Report) {
     work.sort_by_key(|(r, _)| std::cmp::Reverse(r.depth));
     let r = vcommon::par_run(args.jobs, work, rep, |(root, (lname, level)), local| explore(root, lname, *level, local));
     rep.merge(r);
+    let mut big = vec![];
+    for m in subject::primary_modes() {
+        for (len, via_hazmat) in [(0usize, false), (1025, false), (2048, true)] {
+            for l in &levels {
+                big.push((Root { mode: m.clone(), len, via_hazmat, depth: 3 }, l.clone()));
+            }
+        }
+    }
+    let r = vcommon::par_run(args.jobs, big, rep, |(root, (lname, level)), local| large_transfers(root, lname, *level, t, local));
+    rep.merge(r);
     let tr = rep.get("transitions");
     rep.counters.insert("traces_validated_against_impl".into(), tr);
     rep.configs.push(subject::config_json());
-    rep.rule = "BFS over the real OutputReader from each root (input lengths x 3 modes x finalize_xof / merge_subtrees_root_xof x every SIMD level): fill(n), Read::read(n), set_position(p), seek(Start/Current/End) from every reachable reader state, merged on the complete reader state, depth-bounded; every returned byte compared with the spec stream, positions and error behaviour checked; non-trivial = distinct states at depth >= 2".into();
+    rep.rule = "BFS over the real OutputReader from each root (input lengths x 3 modes x finalize_xof / merge_subtrees_root_xof x every SIMD level): fill(n), Read::read(n), set_position(p), seek(Start/Current/End) from every reachable reader state, merged on the complete reader state, depth-bounded; plus single large transfers (fill and Read::read of 4 KiB .. 128 KiB (1 MiB thorough) from six positions incl. across block counter 2^32, each followed by a small fill); every returned byte compared with the spec stream, positions and error behaviour checked; non-trivial = distinct states at depth >= 2".into();
     rep.extra.insert("bounds".into(), json!({"read_sizes": READ_SIZES, "positions": positions().iter().map(|p| p.to_string()).collect::<Vec<_>>(),
         "current_deltas": CURRENT_DELTAS.iter().map(|p| p.to_string()).collect::<Vec<_>>(), "root_input_lens": ROOT_LENS,
         "depth": if t { "6 (7 for one root, 5 for hazmat roots)" } else { "4 (5 for two roots per mode)" }}));
